@@ -191,7 +191,8 @@ def noncanonical_variant(rng: random.Random, text: str) -> str:
         if rng.random() < 0.25 and line.strip() and not line.lstrip().startswith("#") \
                 and "''" not in line:
             line = line.replace(" = ", rng.choice(["=", "  =  ", " =\t"]), 1)
-        if rng.random() < 0.15 and line.strip():
+        if rng.random() < 0.15 and line.strip() and out:
+            # (never the first line: a file starting with whitespace is KF-C01-leading-whitespace)
             line = " " * rng.choice([1, 3, 5]) + line.lstrip()
         out.append(line)
         if rng.random() < 0.05:
